@@ -642,3 +642,21 @@ func HarnessC03_multi() {
 	// and every accepted URL attribute is emitted (C07 direction), in order
 	verifAssert(ok, "C03m")
 }
+
+// HarnessC13_spareCapacity: rule lists built by several builder calls have
+// spare capacity; filtering an attribute must not write into it (an append
+// onto a policy slice would).
+func HarnessC13_spareCapacity() {
+	p := NewPolicy()
+	for i := 0; i < 3; i++ {
+		p.AllowAttrs("k").Matching(nondetRegexp("p.gre")).Globally()
+		p.AllowAttrs("k").Matching(nondetRegexp("p.ere")).OnElements("e")
+	}
+	p.AllowAttrs("k").Matching(nondetRegexp("p.fre")).OnElements("f")
+	verifFreeze()
+	el := pickEl("el", "e", "f", "g")
+	in := []html.Attribute{{Key: "k", Val: nondetString("in.val")}, {Key: pickKey("in.key", "k", "other"), Val: nondetString("in.val")}}
+	out := p.sanitizeAttrs(el, in, p.elsAndAttrs[el])
+	_ = out
+	verifAssert(verifEffects() == 0, "C13-no-write-to-shared-state")
+}
